@@ -12,6 +12,7 @@ from .common import *
 from ..symex import Raised
 
 ID = "C17"
+FALLBACK_N = (16, 50)        # native fallback corpus sizes (quick, thorough): these native cases are expensive
 MIN_OBLIGATIONS = 400
 LEVEL = 'proof'
 
